@@ -506,7 +506,7 @@ def run(ctx):
     )
     # 1. model checking: the invariants on the model as the code is
     big = ctx.thorough
-    for pop, n, ops in ([("bvlll", 5, 5), ("bvlff", 5, 4), ("bvel", 6, 5), ("vel", 5, 6)] if big else [("bvlll", 5, 4), ("bvel", 6, 3)]):
+    for pop, n, ops in ([("bvlll", 5, 5), ("bvlff", 5, 4), ("bvel", 6, 4), ("vel", 5, 5)] if big else [("bvlll", 5, 4), ("bvel", 6, 3)]):
         cfg = os.path.join(ctx.work, f"mc_{pop}.cfg")
         write_cfg(cfg, n=n, pop=pop, maxops=ops)
         res = tlc.run("Ast", cfg, ctx.work, workers=16, timeout_s=3000, allow_violation=False, coverage=True)
@@ -532,8 +532,8 @@ def run(ctx):
         replay_emitted(ctx, "bvlff", 5, 3, "thorough")
         replay_emitted(ctx, "vvlll", 5, 3, "thorough")
         replay_emitted(ctx, "bbvll", 5, 3, "thorough")
-        replay_emitted(ctx, "bvel", 6, 4, "thorough, copy")
-        replay_emitted(ctx, "vel", 5, 5, "thorough, copy of empty lists")
+        replay_emitted(ctx, "bvel", 6, 3, "thorough, copy")
+        replay_emitted(ctx, "vel", 5, 4, "thorough, copy of empty lists")
     else:
         pops = ["bvlll", "bvlff", "vvlll", "bbvll"]
         replay_emitted(ctx, pops[ctx.seed % len(pops)], 5, 3, "quick")
